@@ -42,3 +42,25 @@ Example C01_nonvacuous :
   wf_from 0 ops /\
   skipn 13 (snd (run bytes_cmp db_init ops)) = [OItems (Some [[1]; [2]]); OItems (Some [[2]; [3]])].
 Proof. split; [cbn; repeat split; lia|vm_compute; reflexivity]. Qed.
+
+(** Scan-step granularity on a MOVING store (Mvcc/Live.v): a long-lived iterator of an open snapshot,
+    with ANY operations of other goroutines before its SeekFirst and between any two of its Next steps
+    (Puts and Deletes of the same and other keys, same-epoch and cross-epoch, new snapshots, closing of
+    other snapshots, GC passes and collection-worker steps that physically remove versions), any
+    refresh rate: step k stands on the k-th item the snapshot held, then the scan is exhausted. *)
+From NV Require Import Mvcc.Live Mvcc.LiveStmts Mvcc.LiveProofs.
+Theorem C01_live_scan : forall kcmp, cmp_laws kcmp -> forall pre sn rate seg0 segs,
+  wf_from 0 (pre ++ seg0 ++ concat segs) ->
+  let d0 := fst (run kcmp db_init pre) in
+  snap_open d0 sn = true ->
+  open_along kcmp d0 sn (seg0 :: segs) = true ->
+  live_scan kcmp d0 sn rate seg0 segs
+  = map (fun k => nth_error (view sn (store d0)) k) (seq 0 (S (length segs))).
+Proof. exact live_scan_exact. Qed.
+Print Assumptions C01_live_scan.
+
+(** the versions an open snapshot can see keep their identity, bytes and birth epoch (the node an
+    iterator stands on is never removed under it) *)
+Theorem C01_live_node_stays : forall kcmp, cmp_laws kcmp -> stmt_live_node_stays_open kcmp.
+Proof. exact live_node_stays_open. Qed.
+Print Assumptions C01_live_node_stays.
